@@ -380,7 +380,7 @@ pub fn run(ctx: Ctx) -> Report {
 pub fn meta() -> CheckMeta {
     CheckMeta {
         level: "exploration",
-        rule: "scenario = 1-5 tasks performing the client's request sequence (open_stream, disable_buffering, destination write, 0-4 data frames via write_data_frame / the forwarding task) plus optional keep-alive writers on ONE fresh client Session (real server Session as peer), every payload tagged (task, sequence, fill); per scenario: the unperturbed run, EVERY single pre-emption position x yield length {1,2,4,8} at the named scheduling points of write_frame / write_with_padding / open_stream, all pairs of positions for small scenarios, and random schedules; thorough adds a 4-worker runtime without injected yields. Oracle: the recorded client->server wire parses completely, Settings is the first frame, SYN(id) precedes PSH(id), each task's frames appear exactly once in submission order, and the peer stream received the concatenated payloads. distinct_nontrivial = distinct (scenario, pre-emption plan / interleaving id).".into(),
+        rule: "scenario = 1-5 tasks performing the client's request sequence (open_stream, disable_buffering, destination write, 0-4 data frames via write_data_frame / the forwarding task) plus optional keep-alive writers on ONE fresh client Session (real server Session as peer), every payload tagged (task, sequence, fill); per scenario: the unperturbed run, EVERY single pre-emption position x yield length {1,2,4,8} at the named scheduling points of write_frame / write_with_padding / open_stream, all pairs of positions for small scenarios, and random schedules; thorough adds a 4-worker runtime without injected yields. Oracle: the recorded client->server wire parses completely, Settings is the first frame, SYN(id) precedes PSH(id), each task's frames appear exactly once in submission order, and the peer stream received the concatenated payloads. distinct_nontrivial = distinct (scenario, pre-emption plan / interleaving id). 40% of the generated scenarios (and two of the fixed ones) run the session's own keep-alive task (interval 30 s), whose start-up request races the session start and the first requests under the enumerated pre-emptions.".into(),
         assumptions: vec!["a forced yield at a named scheduling point models a pre-emption by another worker thread there".into(), "at most two forced pre-emptions per run are enumerated systematically".into()],
         floors: vec![("schedules_run", 2000), ("single_preemptions", 1000), ("frames_parsed", 10_000)],
         exhaustive: false,
